@@ -143,7 +143,8 @@ try:
              "ctor_lines": ("query.cxx", r"EL::AnaAlgorithm\s*\(name,\s*pSvcLocator\)[^{]*\{", r"StatusCode\s+query\s*::\s*initialize"),
              "initialize_lines": ("query.cxx", r"StatusCode\s+query\s*::\s*initialize\s*\(\)\s*\{", r"StatusCode\s+query\s*::\s*execute"),
              "link_libraries": ("package_CMakeLists.txt", r"LINK_LIBRARIES\s+AnaAlgorithmLib", r"\)")}
-    blocks = [dict(metadata_type="inject_code", name="b%d" % k, **{f: ["%s_b%d_l%d" % (f, k, i) for i in range(2)] for f in FIELDS}) for k in range(2)]
+    # lines repeat inside a block and across blocks: a repeated line is still a line of its block ("every line exactly once" per occurrence)
+    blocks = [dict(metadata_type="inject_code", name="b%d" % k, **{f: ["%s_b%d_l0" % (f, k), "%s_shared" % f, "%s_b%d_l0" % (f, k)] for f in FIELDS}) for k in range(2)]
     ds = _DS()
     for b in blocks + [blocks[0]]:   # the repeated identical block counts once
         ds = ds.MetaData(b)
@@ -159,11 +160,14 @@ try:
         want = [ln for b in blocks for ln in b[f]]
         text = files[fname]
         ev2 += 1
-        msg = R2.check_slot(text, want, "inject_code field %s in %s" % (f, fname))
+        got = re.findall(r"\b%s_(?:b\d_l\d|shared)\b" % f, text)
+        msg = None
+        if got != want:
+            msg = "inject_code field %s: %s shows the lines %r, the blocks hold %r (every line once per occurrence, in block order)" % (f, fname, got, want)
         if not msg:
             m1 = re.search(after, text)
             first = text.find(want[0])
-            m2 = re.compile(before).search(text, text.find(want[-1]))
+            m2 = re.compile(before).search(text, text.rfind(want[-1]))
             if not m1 or first < m1.end() or not m2:
                 msg = "inject_code field %s: its lines are not in the documented place of %s" % (f, fname)
         for other, txt in files.items():
@@ -172,7 +176,7 @@ try:
         if msg and not bad2:
             bad2 = msg
     results.append(dict(name="C14/bounded:inject_code_end_to_end", kind="bounded", status="violation" if bad2 else "ok", detail=bad2 or "",
-                        bound="two blocks x seven fields x two lines (+ one repeated identical block) through the real ATLAS executor", evaluations=ev2, distinct=ev2,
+                        bound="two blocks x seven fields x three lines, with lines repeated inside a block and across blocks (+ one repeated identical block) through the real ATLAS executor", evaluations=ev2, distinct=ev2,
                         exhaustive=False, input=bad2))
 except Exception as e:  # noqa
     results.append(dict(name="C14/bounded:inject_code_end_to_end", kind="bounded", status="undecided", detail="crashed: %r" % (e,)))
